@@ -336,7 +336,7 @@ var prop = &vt.Prop[Case]{
 	Property: property,
 	Kind:     "c19-document",
 	Gen: func(t *rapid.T) Case {
-		return Case{Prog: wprog.Gen(wprog.Opts{MaxActions: 6, MaxData: 3000, SmallObjects: true}).Draw(t, "prog")}
+		return Case{Prog: wprog.Gen(wprog.Opts{MaxActions: 6, MaxData: 3000, SmallObjects: true, MaxDelta: 100}).Draw(t, "prog")}
 	},
 	Check: checkCase,
 	Classify: func(c *Case) (bool, []string) {
